@@ -155,7 +155,7 @@ def execute(fbin, outdir, cfg, p, schedule=None, append_runs=1):
     sm = None
     exc = None
     for run in range(append_runs):
-        with Seams(schedule=schedule, labels=labels) as sm:
+        with Seams(schedule=schedule if run == append_runs - 1 else None, labels=labels) as sm:
             try:
                 voltage.decompress_destripe_cbin(Path(fbin), output_file=out, nprocesses=p, append=(run > 0), **kw)
             except HarnessError:
@@ -241,7 +241,10 @@ def config_cases(tier, seed):
               dict(nsites=16, ns=2 * 4096 + 333, nbatch=4096, pmax=3, k_filter=True),
               dict(nsites=16, ns=3 * 2560 + 100, nbatch=2560, pmax=3, k_filter=True, reject=True, labels=[0] * 12 + [1, 0, 3, 3]),
               # many workers on a short recording: a worker's first batch would lie past the last one
-              dict(nsites=4, ns=5000, nbatch=4096, pmax=6), dict(nsites=4, ns=2560 + 700, nbatch=2560, pmax=6)]
+              dict(nsites=4, ns=5000, nbatch=4096, pmax=6), dict(nsites=4, ns=2560 + 700, nbatch=2560, pmax=6),
+              # recordings not longer than one batch
+              dict(nsites=4, ns=4096, nbatch=4096, pmax=3), dict(nsites=4, ns=3000, nbatch=4096, pmax=4), dict(nsites=4, ns=2049, nbatch=2560, pmax=2),
+              dict(base, append=True, ns=4096 + 2048 + 1), dict(nsites=4, ns=3 * 2560, nbatch=2560, pmax=4, append=True, ns2add=7)]
     return cases
 
 
@@ -302,7 +305,7 @@ def config_check(cfg):
     stats = []
     for p in range(2, cfg["pmax"] + 1):
         ctx = "%s workers=%d" % (ctx0, p)
-        art, s, exc = execute(fbin, os.path.join(d, "op"), cfg, p, append_runs=1)
+        art, s, exc = execute(fbin, os.path.join(d, "op"), cfg, p, append_runs=runs)
         ntr += 1
         if exc is not None:
             short = (p - 1) * int(ns / p) / N > np.ceil(max(ns - N, 0) / (N - 2 * TAPER))
@@ -315,6 +318,18 @@ def config_check(cfg):
         ref_keys = {t: [o.key() for o in per[t]] for t in per}
         # every output byte written, all writers agree
         nbytes = (ns + cfg.get("ns2add", 0)) * nc_out * 2
+        app_off = nbytes * (runs - 1)              # in append mode the recorded footprint is that of the last (appending) run
+        if app_off:
+            for t in per:
+                for o in per[t]:
+                    if o.file == "out.bin":
+                        o.start -= app_off
+                        o.end -= app_off
+            neg = [o for t in per for o in per[t] if o.file == "out.bin" and o.start < 0]
+            if neg:
+                seen.setdefault("append:overwrites-earlier-run", "%s: the appending run writes into the data of the earlier run: %r" % (ctx, neg[0]))
+                for o in neg:
+                    o.start, o.end, o.data = 0, 0, b""
         unwritten, disagree, cnt = sched.coverage(per, "out.bin", nbytes)
         if unwritten:
             first = int(np.flatnonzero(cnt == 0)[0])
@@ -347,7 +362,7 @@ def config_check(cfg):
         outcomes = {(art["out.bin"], art["ap_rms.bin"], art["ap_time.bin"])}
         compare = [(s.order, art)]
         for sc in uniq:
-            a2, s2, e2 = execute(fbin, os.path.join(d, "op"), cfg, p, schedule=sc)
+            a2, s2, e2 = execute(fbin, os.path.join(d, "op"), cfg, p, schedule=sc, append_runs=runs)
             ntr += 1
             if e2 is not None:
                 seen.setdefault("workers:exc:%s" % type(e2).__name__, "%s schedule %r: a worker raised %s: %s" % (ctx, sc, type(e2).__name__, e2))
@@ -360,14 +375,14 @@ def config_check(cfg):
             outcomes.add((a2["out.bin"], a2["ap_rms.bin"], a2["ap_time.bin"]))
             compare.append((sc, a2))
         for sc, a in compare:
-            if a["out.bin"] != art1["out.bin"][:len(a["out.bin"])] or (runs == 1 and a["out.bin"] != art1["out.bin"]):
+            if a["out.bin"] != art1["out.bin"]:
                 o2 = np.frombuffer(a["out.bin"], dtype=np.int16)
                 o1 = np.frombuffer(art1["out.bin"], dtype=np.int16)[:o2.size]
                 where = int(np.flatnonzero(o2 != o1[:o2.size])[0]) // nc_out if o2.size and o2.size <= o1.size and np.any(o2 != o1[:o2.size]) else -1
                 seen.setdefault("workers:differs-from-one-worker", "%s schedule %r...: the output is not byte-identical to the one-worker result (sizes %d/%d, first difference at sample %d)"
                                 % (ctx, sc[:10], len(a["out.bin"]), len(art1["out.bin"]), where))
                 break
-            if runs == 1 and (a["ap_rms.bin"] != art1["ap_rms.bin"] or a["ap_time.bin"] != art1["ap_time.bin"]):
+            if a["ap_rms.bin"] != art1["ap_rms.bin"] or a["ap_time.bin"] != art1["ap_time.bin"]:
                 seen.setdefault("workers:qc-differs", "%s schedule %r...: rms/time files differ from the one-worker result (%d/%d values)"
                                 % (ctx, sc[:10], len(a["ap_rms.bin"]) // 4, len(art1["ap_rms.bin"]) // 4))
                 break
